@@ -369,6 +369,17 @@ func (e *Exec) rtIntrinsic(name string, fn *ssa.Function, args []Value) (Value, 
 		return out, true
 
 	// ---- integers ----
+	case "Lower":
+		return e.toLower(e.asBytes(args[0], name)), true
+	case "IntToBytes32":
+		a, ok := e.intBig(args[0], name)
+		if !ok {
+			e.goPanicNow("IntToBytes32(nil)")
+		}
+		if e.branch(tb.Not(tb.And(tb.Not(tb.Slt(a.v, tb.BV(0, bigW))), tb.Slt(a.v, tb.BVb(pow2(256), bigW))))) {
+			e.goPanicNow("IntToBytes32: value out of range")
+		}
+		return e.bytesFromTerm(tb.Extract(255, 0, a.v), 32, false), true
 	case "IntFromBytes32":
 		s := e.asBytes(args[0], name)
 		n := e.concretize(s.len, e.reprCap(s), "IntFromBytes32 length")
